@@ -16,8 +16,31 @@ def load_json(path, default):
 
 def verus_fn_name(path):
     """my item path -> the name Verus prints in its function breakdown"""
-    p = re.sub(r"<[^<>]* for ([A-Za-z0-9_]+)(<[^<>]*>)?>", r"\1", path)
-    return "unit::" + p
+    out, i = "", 0
+    while i < len(path):
+        if path[i] == "<":
+            d, j = 0, i
+            while j < len(path):
+                if path[j] == "<": d += 1
+                elif path[j] == ">":
+                    d -= 1
+                    if d == 0: break
+                j += 1
+            inner = path[i + 1:j]
+            # `Trait<..> for Type<..>` -> Type
+            k, d2, pos = 0, 0, -1
+            while k < len(inner):
+                if inner[k] == "<": d2 += 1
+                elif inner[k] == ">": d2 -= 1
+                elif d2 == 0 and inner.startswith(" for ", k): pos = k
+                k += 1
+            ty = inner[pos + 5:] if pos >= 0 else inner
+            ty = re.sub(r"<.*$", "", ty).strip().lstrip("&").strip()
+            out += ty
+            i = j + 1
+        else:
+            out += path[i]; i += 1
+    return "unit::" + out
 
 
 class Result:
@@ -255,7 +278,7 @@ def write_evidence(res, cfg, rc):
         "solver_time_ms": {"verus_smt": res.log.get("verus_smt_ms"), "verus_total": res.log.get("verus_total_ms"), "kani_s": res.log.get("kani_s")},
         "extraction": {"expand_cmd": res.log.get("expand_cmd"), "unit_sha256": res.log.get("unit_sha256"), "fidelity": res.log.get("fidelity"), "report": res.log.get("unit_report")},
         "assumption_scan": res.log.get("assumption_scan"),
-        "explanation": cfg.get("explanation", ""),
+        "explanation": cfg.get("explanation") or cfg.get("claim") or "see MANIFEST level_claimed",
         "exit_code": rc,
     }
     ev = {"property_id": pid, "tier": res.tier, "seed": res.seed, "level": level, "coverage": cov,
@@ -277,10 +300,16 @@ def check(pid, tier, seed, update_baseline=False):
         with workspace.Scratch(pid) as sc:
             sc.copy_repo()
             if cfg.get("verus_modules"):
-                src = workspace.expand(sc, res.log)
-                run_verus_part(res, cfg, src, {})
+                try:
+                    src = workspace.expand(sc, res.log)
+                    run_verus_part(res, cfg, src, {})
+                except (ToolError, gen.GenError) as e:
+                    res.undecided.append("verus part: " + str(e))
             if cfg.get("kani"):
-                kani.run_harnesses(res, cfg, sc, tier)
+                try:
+                    kani.run_harnesses(res, cfg, sc, tier)
+                except (ToolError, gen.GenError) as e:
+                    res.undecided.append("kani part: " + str(e))
             for extra in cfg.get("scans", []):
                 import scans
                 scans.run(extra, res, sc)
